@@ -231,6 +231,8 @@ func regexVars(e *Env) []RegexVar {
 func C11(e *Env) {
 	r := e.R
 	e.analysedBase()
+	yamlKeysRule(e, "R11.12")
+	e.R.Rule("R11.12", "key table: the YAML keys each mapping of the input model recognises (struct tags) and the Go types behind them equal the documented ones; the decoder ignores unknown keys, so a misspelt tag drops a documented attribute silently", 25)
 	r.Rule("R11.1", "validation coverage: every string, *string, map-key and interface{} leaf of the input model is read by a validator of package input and reaches a sink (a regular-expression match, types.IsPrimitive or an enum lookup in its unmarshaler)", 24)
 	r.Rule("R11.2", "language equality, for ALL strings: the language of every validating/recognising regular expression as compiled (anchoring wrapper included) equals the reference grammar written from the documentation; a difference is reported with a shortest distinguishing string", 28)
 	r.Rule("R11.3", "lemmas independent of the reference transcription: identifier positions admit only Go identifiers; no name/identifier/type/constructor/import language admits whitespace, a newline, a backslash, a quote outside the \"import\" form or an unbalanced quote; the three argument prefixes are pairwise disjoint and do not contain $gontainer", 20)
